@@ -174,12 +174,18 @@ Synced == Len(bs) > 1
 AfterCP(mf) == IF ~Synced \/ mf[1] + CPI <= memH[1] THEN "top" ELSE "tip"
 
 ----------------------------------------------------------------------------
-\* Checkpoint lists held by the handler, capped at lastH (:632-641).
-LCap == IF cpc = <<>> THEN 0
-        ELSE LET a == (Len(cpc) - 1) \div CPI
-                 b == lastH \div CPI
-             IN  IF a < b THEN a ELSE b
-MinCP == IF SetOf(allp) = {} \/ cpc = <<>> THEN 0 ELSE ((Len(cpc) - 1) \div CPI) * CPI
+\* Checkpoint lists held by the handler.  A peer serves one checkpoint per
+\* interval of the chain the request named; an "SH" peer only those up to
+\* height K(p) (a correct but shorter list).  cfHandler caps every list at
+\* lastH (:632-641).
+MinI(a, b) == IF a < b THEN a ELSE b
+RawLen(p) == IF cpc = <<>> THEN 0
+             ELSE LET full == (Len(cpc) - 1) \div CPI
+                  IN  IF Kind(p) = "SH" THEN MinI(K(p) \div CPI, full) ELSE full
+LenOf(p)  == MinI(RawLen(p), lastH \div CPI)
+MaxLen(S) == IF S = {} THEN 0 ELSE LenOf(CHOOSE p \in S : \A q \in S : LenOf(q) <= LenOf(p))
+MinCP == IF SetOf(allp) = {} \/ cpc = <<>> THEN 0
+         ELSE RawLen(CHOOSE p \in SetOf(allp) : \A q \in SetOf(allp) : RawLen(p) <= RawLen(q)) * CPI
 
 \* isOnBlockHeaderChain: the tip of chain c is still in the block store.
 OnChain(c) == c # <<>> /\ Len(c) <= Len(bs) /\ bs[Len(c)] = c[Len(c)]
@@ -189,15 +195,17 @@ OnChain(c) == c # <<>> /\ Len(c) <= Len(bs) /\ bs[Len(c)] = c[Len(c)]
 StaleLists == \/ FixSnapshotCheck /\ SetOf(allp) # {} /\ ~OnChain(cpc)
               \/ FixRefreshLists /\ pc = "retry" /\ SetOf(allp) # {}
 LostTip == FixSnapshotCheck /\ ~OnChain(lastC)
-ListOf(p) == [i \in 1..LCap |-> CkOf(p, cpc, i - 1)]
+ListOf(p) == [i \in 1..LenOf(p) |-> CkOf(p, cpc, i - 1)]
+\* one representative per distinct list: which one `for _, l := range m { return l }` yields is Go map order
+Reps(S) == {MinOf({q \in S : ListOf(q) = ListOf(p)}) : p \in S}
 
 \* checkCFCheckptSanity (:1989) for the lists of the peers in S against store f.
 Sanity(S, f) ==
-  LET bad == {i \in 0..(LCap - 1) :
-                \/ Cardinality({CkOf(p, cpc, i) : p \in S}) > 1
-                \/ /\ S # {}
-                   /\ (i + 1) * CPI <= Len(f) - 1
-                   /\ f[(i + 1) * CPI + 1] # CkOf(CHOOSE p \in S : TRUE, cpc, i)}
+  LET Has(i) == {p \in S : LenOf(p) > i}
+      bad == {i \in 0..(MaxLen(S) - 1) :
+                \/ Cardinality({CkOf(p, cpc, i) : p \in Has(i)}) > 1
+                \/ /\ (i + 1) * CPI <= Len(f) - 1
+                   /\ f[(i + 1) * CPI + 1] # CkOf(CHOOSE p \in Has(i) : TRUE, cpc, i)}
   IN  IF S = {} \/ bad = {} THEN -1 ELSE MinOf(bad)
 
 \* writeCFHeadersMsg (:1250) of heights lo..hi from peer wp's message on chain
@@ -221,8 +229,8 @@ EndR(c, bn) ==
       cp2 == cpS \cap hdS
       d   == Sanity(cp2, fs)
   IN  IF d = -1 /\ cp2 # {}
-      THEN [res |-> "good", good |-> ListOf(CHOOSE p \in cp2 : TRUE), bn |-> bn2]
-      ELSE [res |-> "err", good |-> <<>>, bn |-> bn2]
+      THEN [res |-> "good", cands |-> Reps(cp2), bn |-> bn2]
+      ELSE [res |-> "err", cands |-> {}, bn |-> bn2]
 
 \* Continue the scan of the running call from height x.  w = 1: the scan of
 \* getUncheckpointedCFHeaders is over and the surviving message is written.
@@ -235,14 +243,14 @@ Outcome(c, bn, x) ==
            IN
            IF gone \/ y > Len(bs) - 1    \* re-org seen / detectBadPeers: FetchHeaderByHeight fails
            THEN [pc |-> IF c.mode = "r" THEN "retry" ELSE "tipz", res |-> "err",
-                 c |-> NoCtx, bn |-> bn, good |-> <<>>, w |-> 0]
+                 c |-> NoCtx, bn |-> bn, cands |-> {}, w |-> 0]
            ELSE [pc |-> IF c.mode = "r" THEN "r_flt" ELSE "u_flt", res |-> "q_flt",
-                 c |-> [c EXCEPT !.i = y, !.tb = bs[y + 1]], bn |-> bn, good |-> <<>>, w |-> 0]
+                 c |-> [c EXCEPT !.i = y, !.tb = bs[y + 1]], bn |-> bn, cands |-> {}, w |-> 0]
       ELSE IF c.mode = "r"
            THEN LET e == EndR(c, bn) IN
                 [pc |-> IF e.res = "good" THEN "cp" ELSE "retry", res |-> e.res,
-                 c |-> NoCtx, bn |-> e.bn, good |-> e.good, w |-> 0]
-           ELSE [pc |-> "tip", res |-> "w", c |-> c, bn |-> bn, good |-> <<>>, w |-> 1]
+                 c |-> NoCtx, bn |-> e.bn, cands |-> e.cands, w |-> 0]
+           ELSE [pc |-> "tip", res |-> "w", c |-> c, bn |-> bn, cands |-> {}, w |-> 1]
 
 \* After detectBadPeers banned some peers: the scan moves on to the next
 \* height; the repaired getUncheckpointedCFHeaders looks at the same height
@@ -250,7 +258,7 @@ Outcome(c, bn, x) ==
 Cont(c, bn, rem) ==
   IF c.mode = "u" /\ FixURecheck
   THEN IF rem = {}
-       THEN [pc |-> "tipz", res |-> "err", c |-> NoCtx, bn |-> bn, good |-> <<>>, w |-> 0]
+       THEN [pc |-> "tipz", res |-> "err", c |-> NoCtx, bn |-> bn, cands |-> {}, w |-> 0]
        ELSE Outcome(c, bn, c.i)
   ELSE Outcome(c, bn, c.i + 1)
 
@@ -259,8 +267,12 @@ Cont(c, bn, rem) ==
 Picks(S, c) == IF \E x \in c.s..c.e : Mismatch(S, c.qc, x) THEN S ELSE {MinOf(S)}
 
 Apply(op, o, rs, n, lo, hi) ==
-  IF o.w = 0
-  THEN /\ H(o.pc, o.c, o.bn, o.good, fs, memF, cpq)
+  IF o.w = 0 /\ o.res = "good"
+  THEN \E g \in o.cands :
+         /\ H(o.pc, o.c, o.bn, ListOf(g), fs, memF, cpq)
+         /\ Fin(Act(op, "good", rs, IF Cardinality(o.cands) > 1 THEN g ELSE 0, 0, n, lo, hi))
+  ELSE IF o.w = 0
+  THEN /\ H(o.pc, o.c, o.bn, <<>>, fs, memF, cpq)
        /\ Fin(Act(op, o.res, rs, 0, 0, n, lo, hi))
   ELSE LET hdS == SetOf(o.c.hd) IN
        IF hdS = {}
@@ -312,49 +324,61 @@ GcSend ==
 
 \* ... and answered (:1960); the handler then makes sure the tip it asked for is
 \* still on the chain (re-org while waiting for the answers).
-GcRecv(rsS) ==
+\* sp # 0: the answer of (honest) peer sp is preceded by a cfcheckpt message of
+\* that peer that belongs to an older request (other stop hash); the callback
+\* ignores it.
+GcRecv(rsS, sp) ==
   /\ pc = "q_cp" /\ nh < MaxSteps
   /\ rsS \in RSets("cp")
+  /\ (sp = 0 \/ (sp \in rsS /\ Kind(sp) = "H"))
   /\ nh' = nh + 1
   /\ UNCHANGED <<sc, bs, fs, ban, memH, memF, lastH, lastC, good, ctx, cpq, nre, nex>>
   /\ IF LostTip
      THEN /\ allp' = Flags({}) /\ cpc' = <<>> /\ pc' = "top"
-          /\ Fin(Act("GetCheckpts", "restart", SortedSeq(rsS), 0, 0, 0, 0, lastH))
+          /\ Fin(Act("GetCheckpts", "restart", SortedSeq(rsS), sp, 0, 0, 0, lastH))
      ELSE /\ allp' = Flags(rsS) /\ cpc' = IF rsS = {} THEN <<>> ELSE lastC
           /\ pc' = IF rsS = {} THEN "retry" ELSE "resolve"     \* :616 none: sleep, continue
-          /\ Fin(Act("GetCheckpts", IF rsS = {} THEN "none" ELSE "ok", SortedSeq(rsS), 0, 0, 0, 0, lastH))
+          /\ Fin(Act("GetCheckpts", IF rsS = {} THEN "none" ELSE "ok", SortedSeq(rsS), sp, 0, 0, 0, lastH))
 
 \* :629-658 cap, then resolveConflict up to its first gate (same loop
 \* iteration as the fetch, or directly if the cached lists reach lastHeight).
 RStart ==
   /\ (pc = "resolve" \/ (pc \in {"loop", "retry"} /\ ~LostTip /\ ~StaleLists /\ MinCP >= lastH))
   /\ nh < MaxSteps
-  /\ LET L   == LCap
-         cp0 == IF L = 0 THEN {} ELSE SetOf(allp)
-         hb  == {p \in cp0 : sc.hard > 0 /\ sc.hard <= L * CPI
+  /\ LET cp0 == {p \in SetOf(allp) : LenOf(p) >= 1}
+         hb  == {p \in cp0 : sc.hard > 0 /\ sc.hard <= LenOf(p) * CPI
                               /\ CkOf(p, cpc, (sc.hard \div CPI) - 1) # sc.hard * LS}
          bn1 == BanAdd(ban, hb)
          cp1 == cp0 \ hb
          d   == Sanity(cp1, fs)
+         cp2 == {p \in cp1 : LenOf(p) >= d}        \* :1495 lists that end before the mismatch
          bt  == Len(bs) - 1
      IN
      IF cp1 = {}
      THEN /\ H("retry", NoCtx, bn1, <<>>, fs, memF, cpq)
           /\ Fin(Act("RStart", "err", <<>>, 0, 0, 0, 0, lastH))
      ELSE IF d = -1
-     THEN /\ H("cp", NoCtx, bn1, ListOf(CHOOSE p \in cp1 : TRUE), fs, memF, cpq)
-          /\ Fin(Act("RStart", "good", <<>>, 0, 0, 0, 0, lastH))
+     THEN \E g \in Reps(cp1) :
+          /\ H("cp", NoCtx, bn1, ListOf(g), fs, memF, cpq)
+          /\ Fin(Act("RStart", "good", <<>>, IF Cardinality(Reps(cp1)) > 1 THEN g ELSE 0, 0, 0, 0, lastH))
+     ELSE IF cp2 = {}
+     THEN /\ H("retry", NoCtx, bn1, <<>>, fs, memF, cpq)
+          /\ Fin(Act("RStart", "err", <<>>, 0, 0, 0, 0, lastH))
      ELSE IF d * CPI > bt
      THEN \* getCFHeadersForAllPeers: stopHeight-height underflows, no query is sent
-          LET e == IF FixNoQueryNoBan THEN [res |-> "err", good |-> <<>>, bn |-> bn1]
-                   ELSE EndR([NoCtx EXCEPT !.mode = "r", !.cp = Flags(cp1)], bn1) IN
-          /\ H(IF e.res = "good" THEN "cp" ELSE "retry", NoCtx, e.bn, e.good, fs, memF, cpq)
-          /\ Fin(Act("RStart", e.res, <<>>, 0, 0, 0, 0, lastH))
+          LET e == IF FixNoQueryNoBan THEN [res |-> "err", cands |-> {}, bn |-> bn1]
+                   ELSE EndR([NoCtx EXCEPT !.mode = "r", !.cp = Flags(cp2)], bn1) IN
+          IF e.res = "good"
+          THEN \E g \in e.cands :
+               /\ H("cp", NoCtx, e.bn, ListOf(g), fs, memF, cpq)
+               /\ Fin(Act("RStart", "good", <<>>, IF Cardinality(e.cands) > 1 THEN g ELSE 0, 0, 0, 0, lastH))
+          ELSE /\ H("retry", NoCtx, e.bn, <<>>, fs, memF, cpq)
+               /\ Fin(Act("RStart", "err", <<>>, 0, 0, 0, 0, lastH))
      ELSE LET s  == d * CPI
               e  == IF bt - s >= W THEN s + W - 1 ELSE bt
               se == IF bt - s >= W THEN e + 1 ELSE e
           IN
-          /\ H("r_cfh", [NoCtx EXCEPT !.mode = "r", !.cp = Flags(cp1),
+          /\ H("r_cfh", [NoCtx EXCEPT !.mode = "r", !.cp = Flags(cp2),
                                       !.qc = SubSeq(bs, 1, se + 1), !.s = s, !.e = e, !.se = se],
                bn1, <<>>, fs, memF, cpq)
           /\ Fin(Act("RStart", "q_cfh", <<>>, 0, 0, 0, s, lastH))
@@ -367,7 +391,7 @@ SelfOK(p, d, qc, s, e) ==
       hs   == qc[s + 1] * LS + ms
       prev == IF d = 0 THEN 0 ELSE CkOf(p, cpc, d - 1)
   IN  /\ hs = prev
-      /\ (d >= LCap \/ e - s + 1 <= CPI
+      /\ (d >= LenOf(p) \/ e - s + 1 <= CPI
           \/ qc[s + CPI + 1] * LS + ChainMask(ms, p, s + 1, s + CPI) = CkOf(p, cpc, d))
 
 \* the getcfheaders broadcast of resolveConflict is answered.
@@ -375,11 +399,12 @@ RCfh(rsS) ==
   /\ pc = "r_cfh" /\ nh < MaxSteps
   /\ rsS \in RSets("cfh")
   /\ LET d   == ctx.s \div CPI
-         chk == rsS \cap SetOf(ctx.cp)
+         acc == {p \in rsS : Kind(p) # "SF"}       \* :1884 answers of the wrong length are ignored
+         chk == acc \cap SetOf(ctx.cp)
          inc == IF FixSelfConsistency THEN {p \in chk : ~SelfOK(p, d, ctx.qc, ctx.s, ctx.e)} ELSE {}
          allInc == chk # {} /\ inc = chk       \* nobody is consistent: chains differ, nobody banned
          bn1 == BanAdd(ban, inc)
-         hd  == rsS \ inc
+         hd  == acc \ inc
          c0  == [ctx EXCEPT !.hd = Flags(hd), !.cp = Flags(SetOf(ctx.cp) \ inc)]
          prevs == {PrevOf(p, ctx.qc, ctx.s) : p \in hd}
      IN  IF allInc
@@ -550,9 +575,10 @@ UStart ==
 UCfh(rsS) ==
   /\ pc = "u_cfh" /\ nh < MaxSteps
   /\ rsS \in RSets("cfh")
-  /\ LET pb  == {p \in rsS : PrevOf(p, ctx.qc, ctx.s) # ctx.utip}      \* :784
+  /\ LET acc == {p \in rsS : Kind(p) # "SF"}       \* :1884 answers of the wrong length are ignored
+         pb  == {p \in acc : PrevOf(p, ctx.qc, ctx.s) # ctx.utip}      \* :784
          bn1 == BanAdd(ban, pb)
-         hd  == rsS \ pb
+         hd  == acc \ pb
      IN  IF FixPrevTipGuard /\ fs[Len(fs)] # ctx.utip
          THEN /\ H("tipz", NoCtx, ban, good, fs, memF, cpq)
               /\ Fin(Act("UCfh", "err", SortedSeq(rsS), 0, 0, 0, ctx.s, ctx.e))
@@ -607,7 +633,7 @@ Next ==
   \/ Begin
   \/ LoopRestart
   \/ GcSend
-  \/ \E S \in SUBSET Peers : GcRecv(S)
+  \/ \E S \in SUBSET Peers : \E sp \in 0..NP : GcRecv(S, sp)
   \/ RStart
   \/ \E S \in SUBSET Peers : RCfh(S)
   \/ \E S \in SUBSET Peers : RFlt(S)
